@@ -39,6 +39,15 @@ reg("C07", "exploration",
     "delta law. Sampling, not exhaustive.",
     BASE_NOTE + "CPython's hashing shortcuts in set.intersection_update are not demanded of TraitSet.", "DESIGN.md 3/C07")
 
+reg("C04", "exploration",
+    "Hypothesis op histories on container traits: independent element/length invariant after every step + builtin-container model deciding legal/illegal ops",
+    "Generated histories over every list/dict/set mutator and whole-value assignment on 11 container traits (bounded, "
+    "nested, Union items) with valid/convertible/invalid items; after every step an independent recursive predicate "
+    "checks every element and length, and a model on documented conversions decides whether the op had to succeed "
+    "(same contents) or be rejected with TraitError leaving everything unchanged and nobody notified. Sampling.",
+    BASE_NOTE + "Inner-trait conversions modelled from the documentation (Int via __index__, Float via __float__/__index__).",
+    "DESIGN.md 3/C04")
+
 
 def main():
     props = [json.loads(l) for l in open(os.path.join(ROOT, "properties.jsonl"))]
